@@ -116,6 +116,8 @@ package ring
 
 // Unlink(n) = r.Link(r.Move(n + 1)); the caller hands the n + 1 forward steps from r in gpath (s = gpath[n + 1] is the
 // node that follows the removed ones; it is r itself when n + 1 is a multiple of the length: nothing is removed).
+// Excluded input: n == MaxInt (n + 1 wraps around to MinInt and Move walks backwards 2^63 times; container/ring has the
+// same expression, so this is upstream's behaviour too).
 //@ func (*Ring).Unlink
 //@   tags C14 C07
 //@   requires r != nil && n < 0x7fffffffffffffff
@@ -134,27 +136,30 @@ package ring
 //@               old(r.next), initp(old(fieldmap(r.next)), old(fieldmap(r.prev)), gpath[n + 1])[gpath[n + 1]])
 
 // Do: "calls f on each element of the ring, in forward order; the behavior is undefined if f changes *r". f is an
-// arbitrary function value, so its effect is unknown; the documented proviso is stated as an assumption at the two
+// arbitrary function value, so its effect is unknown; the documented proviso is stated as an assumption at the
 // call sites: f leaves the next pointers of all ring nodes alone (and cannot touch specification state). Under it, Do
 // does not panic, terminates, and hands f the Value of gpath[0], gpath[1], ..., gpath[gcyc-1] in this order, each
-// exactly once (visn[k] = the node whose Value the k-th call received, cnt = number of calls).
+// exactly once (cnt = number of calls made so far, 0 at entry). The clauses at the callback are anchored at EVERY call
+// of a function value in the body and speak about the argument f receives, not about the body's variables.
+// Excluded input: f == nil on a non-nil ring (nil function call panic, exactly as container/ring's Do; on a nil ring
+// f is never called, there nil is fine).
 //@ func (*Ring).Do
 //@   tags C14 C07
-//@   ghost visn [int]int
 //@   ghost cnt int
 //@   requires (r != nil && r.next != nil) ==> cycle(fieldmap(r.next), r, gpath, gcyc)
-//@   ensures [C14.ring.do.init] (r != nil && old(r.next) == nil) ==> (cnt == 1 && visn[0] == r)
-//@   ensures [C14.ring.do.count] (r != nil && old(r.next) != nil) ==> cnt == old(gcyc)
-//@   ensures [C14.ring.do.order] (r != nil && old(r.next) != nil) ==> (forall k :: 0 <= k && k < cnt ==> visn[k] == old(gpath)[k])
-//@   at before call funcvalue#0 ghost cnt = 0
-//@   at before call funcvalue#0 ghost visn = update(visn, 0, r)
-//@   at before call funcvalue#1 ghost visn = update(visn, cnt, p)
+//@   requires r != nil ==> f != nil
+//@   at entry ghost cnt = 0
+// the k-th call (k = cnt) exists only for k < length and receives the Value of the k-th node in forward order
+//@   at before call funcvalue assert [C14.ring.do.value] r != nil && cnt >= 0 && (old(r.next) == nil ==> (cnt == 0 && arg0 == r.Value))
+//@        && (old(r.next) != nil ==> (cnt < old(gcyc) && arg0 == fieldmap(r.Value)[old(gpath)[cnt]]))
 //@   at call funcvalue ghost cnt = cnt + 1
+//@   ensures [C14.ring.do.nil] r == nil ==> cnt == 0
+//@   ensures [C14.ring.do.init] (r != nil && old(r.next) == nil) ==> cnt == 1
+//@   ensures [C14.ring.do.count] (r != nil && old(r.next) != nil) ==> cnt == old(gcyc)
 //@   at call funcvalue assume fieldmap(r.next) == old(fieldmap(r.next)) && fieldmap(r.prev) == old(fieldmap(r.prev)) && gpath == old(gpath) && gcyc == old(gcyc)
 //@   loop 0 invariant gpath == old(gpath) && gcyc == old(gcyc)
-//@   loop 0 invariant old(r.next) == nil ==> (p == r && cnt == 1 && visn[0] == r)
+//@   loop 0 invariant old(r.next) == nil ==> (p == r && cnt == 1)
 //@   loop 0 invariant old(r.next) != nil ==> (fieldmap(r.next) == old(fieldmap(r.next)) && 1 <= cnt && cnt <= gcyc && p == gpath[cnt])
-//@   loop 0 invariant old(r.next) != nil ==> (forall k :: 0 <= k && k < cnt ==> visn[k] == gpath[k])
 //@   loop 0 decreases gcyc - cnt
 
 // ---- Buffered: a FIFO queue laid over a ring ----
@@ -165,27 +170,32 @@ package ring
 //@   ghost nodes [int]int
 //@   ghost rl int
 //@   invariant [b.ring] self.ring != nil && self.ring == self.nodes[0]
-//@   invariant [b.size] 0 <= self.end && self.end <= self.rl && self.rl <= 0x7fffffffffffffff && 1 <= self.bsize && self.bsize <= 0x3fffffffffffffff
+//@   invariant [b.size] 0 <= self.end && self.end <= self.rl && self.rl <= 0x7fffffffffffffff && 1 <= self.bsize
 //@   invariant [b.cycle] cycle(fieldmap(self.ring.next), self.ring, self.nodes, self.rl)
 //@   invariant [b.prev] forall k :: 0 <= k && k < self.rl ==> fieldmap(self.ring.prev)[self.nodes[k + 1]] == self.nodes[k]
 //@   invariant [b.distinct] forall j, k :: 0 <= j && j < k && k < self.rl ==> self.nodes[j] != self.nodes[k]
 //@   invariant [b.alloc] forall k :: 0 <= k && k < self.rl ==> allocated(self.nodes[k])
 //@   invariant [b.unused] forall k :: self.end <= k && k < self.rl ==> fieldmap(self.ring.Value)[self.nodes[k]] == nil
 
+// NewBuffered: an empty queue for EVERY initialSize and bufferSize (values below 1 count as 1) - no size is excluded.
+// (audit C14-D3: RemoveFront used to compute b.bsize*2, which wraps around for bufferSize > MaxInt/2, and the contract
+// excluded those sizes by a precondition; the shrink test is now Len()-end-bsize > bsize and the precondition is gone.)
 //@ func NewBuffered
 //@   tags C14 C07
-//@   requires bufferSize <= 0x3fffffffffffffff     // bsize*2 is computed in RemoveFront
 //@   modifies gpath
 //@   ensures [C14.buffered.new] fresh(result) && inv(result) && result.end == 0
 //@   ensures [C14.buffered.new.sizes] result.rl == (old(initialSize) < 1 ? 1 : old(initialSize)) && result.bsize == (old(bufferSize) < 1 ? 1 : old(bufferSize))
 //@   at return ghost result.nodes = gpath
 //@   at return ghost result.rl = initialSize
 
+// Len: the length of the queue. The queue of a well-formed Buffered is the values of nodes[0..end), so the model's
+// length is end - but only for a well-formed one (0 <= end <= rl): inv(b) is required, and every operation re-establishes it.
 //@ func (*Buffered).Len
 //@   tags C14 C07
-//@   requires b != nil
+//@   requires b != nil && inv(b)
 //@   modifies nothing
 //@   ensures [C14.buffered.len] result == b.end
+//@   ensures [C14.buffered.len.nonneg] 0 <= result && result <= b.rl
 
 //@ func (*Buffered).Front
 //@   tags C14 C07
@@ -198,7 +208,10 @@ package ring
 //@ func (*Buffered).AppendBack
 //@   tags C14 C07
 //@   requires b != nil && inv(b)
-//@   requires b.rl + b.bsize <= 0x7fffffffffffffff      // the ring may grow by bsize nodes
+// Excluded input (address space, not behaviour): a grow that would make the ring longer than MaxInt nodes - New(bsize)
+// would have to allocate them first. Only the growing call is excluded; with a huge bufferSize every AppendBack that
+// finds a free slot is covered.
+//@   requires b.end >= b.rl ==> b.rl + b.bsize <= 0x7fffffffffffffff
 //@   modifies b.end, b.nodes, b.rl, gpath, gcyc, allof(b.ring.next), allof(b.ring.prev), allof(b.ring.Value)
 //@   ensures [C14.buffered.append.inv] inv(b)
 //@   ensures [C14.buffered.append.len] b.end == old(b.end) + 1 && b.ring == old(b.ring) && b.bsize == old(b.bsize)
@@ -218,50 +231,66 @@ package ring
 //@   at call Link#0 ghost b.rl = b.rl + b.bsize
 //@   at before call Move#1 ghost gpath = b.nodes
 
-// RemoveFront (on a non-empty queue: every call site checks Len() > 0 first): the head is dropped, the rest moves up
-// by one and keeps its values; the answer is the new head's value, nil when the queue became empty. When more than
-// 2*bsize slots are unused, bsize of the unused slots behind the queue are unlinked - never a used one.
+// RemoveFront, for EVERY queue (the property says "for every operation sequence"; there is no call site in the
+// repository from which a precondition could be taken):
+//  * empty queue: like a plain queue whose RemoveFront on empty is a no-op - the answer is nil and nothing changes
+//    (in particular Len() stays 0 and a later AppendBack is not lost);
+//  * otherwise the head is dropped, the rest moves up by one and keeps its values; the answer is the new head's value,
+//    nil when the queue became empty. When more than 2*bsize slots are unused, bsize of the unused slots behind the
+//    queue are unlinked - never a used one.
 //@ func (*Buffered).RemoveFront
 //@   tags C14 C07
-//@   requires b != nil && inv(b) && b.end > 0
+//@   requires b != nil && inv(b)
 //@   modifies b.ring, b.end, b.nodes, b.rl, gpath, gcyc, allof(b.ring.next), allof(b.ring.prev), allof(b.ring.Value)
 //@   ensures [C14.buffered.remove.inv] inv(b)
-//@   ensures [C14.buffered.remove.len] b.end == old(b.end) - 1 && b.bsize == old(b.bsize)
+//@   ensures [C14.buffered.remove.len] b.end == (old(b.end) > 0 ? old(b.end) - 1 : 0) && b.bsize == old(b.bsize)
+//@   ensures [C14.buffered.remove.empty] old(b.end) == 0 ==> result == nil
+// stronger than the queue model needs (with end == 0 every well-formed ring is the empty queue): the documented
+// "nothing to remove" - no field, no ring node and no part of the ghost view changes
+//@   ensures [C14.buffered.remove.empty.unchanged] old(b.end) == 0 ==> (b.ring == old(b.ring) && b.nodes == old(b.nodes) && b.rl == old(b.rl)
+//@        && fieldmap(b.ring.next) == old(fieldmap(b.ring.next)) && fieldmap(b.ring.prev) == old(fieldmap(b.ring.prev)) && fieldmap(b.ring.Value) == old(fieldmap(b.ring.Value)))
 //@   ensures [C14.buffered.remove.shift] forall k :: 0 <= k && k < b.end ==> (b.nodes[k] == old(b.nodes)[k + 1] && b.nodes[k] != old(b.ring))
-//@   ensures [C14.buffered.remove.values] fieldmap(b.ring.Value) == update(old(fieldmap(b.ring.Value)), old(b.ring), zero(b.ring.Value))
+//@   ensures [C14.buffered.remove.values] old(b.end) > 0 ==> fieldmap(b.ring.Value) == update(old(fieldmap(b.ring.Value)), old(b.ring), zero(b.ring.Value))
 //@   ensures [C14.buffered.remove.fifo] forall k :: 0 <= k && k < b.end ==> fieldmap(b.ring.Value)[b.nodes[k]] == old(fieldmap(b.ring.Value))[old(b.nodes)[k + 1]]
 //@   ensures [C14.buffered.remove.result] result == (b.end > 0 ? old(fieldmap(b.ring.Value))[old(b.nodes)[1]] : nil)
-//@   ensures [C14.buffered.remove.shrink] b.rl == (old(b.rl) - b.end > 2 * b.bsize ? old(b.rl) - b.bsize : old(b.rl))
+//@   ensures [C14.buffered.remove.shrink] old(b.end) > 0 ==> b.rl == (old(b.rl) - b.end > 2 * b.bsize ? old(b.rl) - b.bsize : old(b.rl))
 //@   at store ring#0 ghost b.nodes = lambda k :: (k + 1 <= b.rl ? b.nodes[k + 1] : b.nodes[k + 1 - b.rl])
 //@   at store end#0 assert inv(b)
 //@   at before call Len#0 ghost gpath = b.nodes
 //@   at before call Len#0 ghost gcyc = b.rl
+//@   at before call Move#0 assert [C14.buffered.remove.shrink.when] b.rl - b.end > 2 * b.bsize      // the shrink branch is taken iff more than 2*bsize slots are unused (Len()-end-bsize cannot wrap)
 //@   at before call Move#0 ghost gpath = b.nodes
 //@   at before call Unlink#0 assert b.end + b.bsize + 1 <= b.rl && b.nodes[b.end + b.bsize] != nil && fieldmap(b.ring.prev)[b.nodes[b.end + b.bsize + 1]] == b.nodes[b.end + b.bsize]
 //@   at before call Unlink#0 ghost gpath = lambda k :: b.nodes[b.end + k]
 //@   at call Unlink#0 ghost b.nodes = lambda k :: (k <= b.end ? b.nodes[k] : b.nodes[k + b.bsize])
 //@   at call Unlink#0 ghost b.rl = b.rl - b.bsize
 
-// Range: hands fn the values of the queue from the front, in order, until fn answers false. fn is an arbitrary function
-// value; as for Ring.Do, the proviso "fn does not restructure the ring or the queue it is ranging over" is stated as an
-// assumption at the call site. visn[k] = the node whose Value the k-th call received, oks[k] = what fn answered,
-// calls = number of calls made.
+// Range: hands fn the values of the queue from the front, in order, until fn answers false; on an empty queue fn is
+// never called. fn is an arbitrary function value; as for Ring.Do, the proviso "fn does not restructure the ring or the
+// queue it is ranging over" is stated as an assumption at the call site. calls = number of calls made so far (0 at
+// entry), oks[k] = what fn answered to the k-th call. The clauses at the callback are anchored at EVERY call of a
+// function value in the body, not at one particular call site.
+// Excluded input: fn == nil (a nil callback panics on a non-empty queue, as it does for a range-over-func or for
+// container/ring's Do).
 //@ func (*Buffered).Range
 //@   tags C14 C07
-//@   ghost visn [int]int
 //@   ghost oks [int]bool
 //@   ghost calls int
 //@   requires b != nil && inv(b)
-//@   ensures [C14.buffered.range.count] old(b.end) > 0 ==> (1 <= calls && calls <= old(b.end))
-//@   ensures [C14.buffered.range.order] old(b.end) > 0 ==> (forall k :: 0 <= k && k < calls ==> visn[k] == old(b.nodes)[k])
-//@   ensures [C14.buffered.range.stop] old(b.end) > 0 ==> ((forall k :: 0 <= k && k < calls - 1 ==> oks[k]) && (calls < old(b.end) ==> !oks[calls - 1]) && (calls == old(b.end) || !oks[calls - 1]))
-//@   at before call funcvalue#0 assert arg0 == fieldmap(b.ring.Value)[x]
-//@   at before call funcvalue#0 ghost visn = update(visn, rangeiter, x)
-//@   at call funcvalue#0 ghost oks = update(oks, rangeiter, res0)
-//@   at call funcvalue#0 ghost calls = rangeiter + 1
-//@   at call funcvalue#0 assume fieldmap(b.ring.next) == old(fieldmap(b.ring.next)) && fieldmap(b.ring.prev) == old(fieldmap(b.ring.prev)) && b.nodes == old(b.nodes) && b.rl == old(b.rl) && b.ring == old(b.ring)
+//@   requires fn != nil
+//@   at entry ghost calls = 0
+// the k-th call (k = 0, 1, ...) exists only for k < Len() and receives the k-th value of the queue
+//@   at before call funcvalue assert [C14.buffered.range.value] 0 <= calls && calls < old(b.end) && arg0 == fieldmap(b.ring.Value)[old(b.nodes)[calls]]
+// no call after fn answered false
+//@   at before call funcvalue assert [C14.buffered.range.afterstop] calls > 0 ==> oks[calls - 1]
+//@   at call funcvalue ghost oks = update(oks, calls, res0)
+//@   at call funcvalue ghost calls = calls + 1
+//@   ensures [C14.buffered.range.empty] old(b.end) == 0 ==> calls == 0
+//@   ensures [C14.buffered.range.count] 0 <= calls && calls <= old(b.end)
+// it stops early only because fn said so
+//@   ensures [C14.buffered.range.complete] calls == old(b.end) || (calls > 0 && !oks[calls - 1])
+//@   at call funcvalue assume fieldmap(b.ring.next) == old(fieldmap(b.ring.next)) && fieldmap(b.ring.prev) == old(fieldmap(b.ring.prev)) && b.nodes == old(b.nodes) && b.rl == old(b.rl) && b.ring == old(b.ring)
 //@   loop 0 invariant fieldmap(b.ring.next) == old(fieldmap(b.ring.next)) && fieldmap(b.ring.prev) == old(fieldmap(b.ring.prev)) && b.nodes == old(b.nodes) && b.rl == old(b.rl) && b.ring == old(b.ring)
 //@   loop 0 invariant 0 <= rangeiter && rangeiter < old(b.end) && x == b.nodes[rangeiter]
-//@   loop 0 invariant rangeiter > 0 ==> calls == rangeiter
-//@   loop 0 invariant forall k :: 0 <= k && k < rangeiter ==> (visn[k] == b.nodes[k] && oks[k])
+//@   loop 0 invariant calls == rangeiter && (calls > 0 ==> oks[calls - 1])
 //@   loop 0 decreases old(b.end) - rangeiter
